@@ -97,13 +97,13 @@ static std::vector<Code> scrape(std::string &err) {
         else code += grp[i];
     }
     std::istringstream in(code); std::string line;
-    std::regex re("^\\s*#\\s*define\\s+(CIF_[A-Z0-9_]+)\\s+(-?[0-9]+)\\s*$");
+    std::regex re("^\\s*#\\s*define\\s+(CIF_[A-Z0-9_]+)\\s+\\(?\\s*(-?(?:0[xX][0-9a-fA-F]+|[0-9]+))[uUlL]*\\s*\\)?\\s*$");
     while (std::getline(in, line)) {
         std::smatch m;
         if (std::regex_match(line, m, re)) {
             std::string n = m[1];
             if (n.rfind("CIF_TRAVERSE_", 0) == 0) continue;
-            out.push_back({n, atol(m[2].str().c_str())});
+            out.push_back({n, strtol(m[2].str().c_str(), nullptr, 0)});   // base 0: the literal is read as the C compiler reads it (052 is forty-two)
         }
     }
     return out;
@@ -138,6 +138,7 @@ static std::string check_code(const std::string &name, long n, const std::vector
         }
         if (had && !any) return "message for new code " + name + " shares no word stem with its name: \"" + std::string(raw, len) + "\"";
     }
+    for (auto &o : all) if (o.n == n && o.name != name) return name + " and " + o.name + " are the same number " + std::to_string(n) + ": they cannot each have their own message";
     for (auto &o : all) {
         if (o.n == n || o.n < 0 || o.n >= cif_nerr) continue;
         if (strncmp(cif_errlist[o.n], raw, 80) == 0) return name + " and " + o.name + " share one message";
